@@ -27,6 +27,13 @@ void     vf_observe_f64(const char * name, double v);
 void     vf_observe_i64(const char * name, int64_t v);
 // equality of two computed reals: exact in the symbolic domains, |a-b| <= 1e-9*max(1,|a|,|b|) on IEEE doubles
 bool     vf_eq(double a, double b);
+// 1 while executing symbolically (vf_d available), 0 in concrete runs (engine or native): use finite differences there
+bool     vf_symbolic();
+// like vf_eq with an explicit relative tolerance for the concrete runs
+bool     vf_near(double a, double b, double tol);
+// angles: equal as reals / congruent modulo 2 pi (engine: via sin/cos of the difference)
+bool     vf_angle_eq(double a, double b);
+bool     vf_angle_congruent(double a, double b);
 // fork one path per feasible value of v (engine); identity natively
 int64_t  vf_enum(int64_t v);
 // marks the end of an entry: reachability witness
